@@ -3,7 +3,7 @@ import json
 import os
 import re
 
-from rules import c05
+from rules import c05, findrule
 from gsa import facts, ir, paths
 from gsa.facts import Unit, rel, AnalysisBroken
 from gsa.report import Check
@@ -456,6 +456,653 @@ def run_swap_dictionaries(chk, F):
     chk.expect_count('E2-swap-dictionaries', 'functions changing the swap dictionaries', n, 5)
 
 
+def run_row_exact(chk, F):
+    """E2-row-exact: "each row lists exactly the non-zero entries of that row". Vector_column zeroes an entry lazily
+    (the row index goes to erasedValues_, the entry stays stored and linked): every path that marks a row erased is in
+    an arm compiled without row access, or unlinks / deletes the entry on the same path."""
+    n = 0
+    for f in F.functions:
+        if f.get('clsname') != 'Vector_column' or f['inst'] not in (0, 2) or f.get('body') is None:
+            continue
+        ins = [x for x in ir.walk(f['body']) if ir.is_call(x) and ir.call_name(x) == 'insert' and
+               ir.call_receiver(x) is not None and ir.show(ir.call_receiver(x)) == 'erasedValues_']
+        if not ins:
+            continue
+
+        def cl(x, ins=ins):
+            if any(x is i for i in ins):
+                return ['MARK']
+            if ir.is_call(x) and ir.call_name(x) in ('unlink', '_delete_entry'):
+                return ['UNLINK']
+            return []
+        ps = paths.enumerate_paths(f, cl, loop_mode='1', keep_conds=True)
+        bad = None
+        for p in ps:
+            tags = p.tags()
+            if 'MARK' not in tags or p.end == 'throw':
+                continue
+            ra_false = any(cx and ((not pol and _is_ra(c)) or (pol and _is_not_ra(c)))
+                           for c, pol, cx in p.conds if not isinstance(c, tuple))
+            if ra_false or 'UNLINK' in tags:
+                continue
+            bad = p
+            break
+        n += 1
+        chk.ob('E2-row-exact', 'Vector_column::%s marks a row as lazily erased only where no row lists the entry '
+               '(no row access) or after unlinking it' % f['name'], '%s:%d' % (rel(f['file']), f['line']), bad is None,
+               '' if bad is None else 'a path compiled with row access adds the row to erasedValues_ and leaves the '
+               'entry linked: get_row() keeps listing an entry that zero_entry() removed',
+               key='E2|Vector_column::%s|row-exact' % f['name'])
+    chk.expect_count('E2-row-exact', 'functions erasing lazily', n, 1)
+
+
+def run_reorder_index(chk, F):
+    """E7-reorder-index: when the lazy swaps are applied each column gets the index of the slot it now occupies
+    (Column::reorder(map, columnIndex)). A column object that was swapped into another slot still carries the index
+    of its old slot in Row_access::columnIndex_, which it stamps on every entry it creates: every reorder that
+    relabels its stored entries with set_column_index(columnIndex) also assigns RA_opt::columnIndex_ (siblings: the
+    seven column classes with row access)."""
+    n = 0
+    for f in F.functions:
+        if f.get('clsname') not in COLUMNS or f['name'] != 'reorder' or f['inst'] not in (0, 2) or \
+                f.get('body') is None:
+            continue
+        par = [p['n'] for p in f.get('params', []) if 'Index' in (p.get('t') or '') and 'map' not in p['n'].lower()]
+        if not par:
+            continue
+        idx = par[-1]
+        relabels = [x for x in ir.walk(f['body']) if ir.is_call(x) and ir.call_args(x) and (
+            (ir.call_name(x) == 'set_column_index' and ir.show(ir.call_args(x)[0]) == idx) or
+            (ir.call_name(x) == 'construct' and mentions(ir.call_args(x)[0], idx)))]   # rebuilt under the new index
+        if not relabels:
+            continue
+        n += 1
+        own = False
+        for x in ir.walk(f['body']):
+            t = ir.write_target(x)
+            if t is not None and x.get('op') == '=':
+                tt = ir.skipcasts(t)
+                if tt is not None and tt.get('n') == 'columnIndex_' and ir.show(x['c'][1]) == idx:
+                    own = True
+        chk.ob('E7-reorder-index', '%s::reorder gives the index of the new slot to its stored entries and to the '
+               'entries it will create' % f['clsname'], '%s:%d' % (rel(f['file']), f['line']), own,
+               '' if own else 'the stored entries are relabelled with set_column_index(%s) but RA_opt::columnIndex_ '
+               'keeps the index of the slot the column object came from: after swap_columns every new entry is '
+               'registered in its row under the other column' % idx, key='E7|%s::reorder|own-index' % f['clsname'])
+    chk.expect_count('E7-reorder-index', 'reorder implementations relabelling their entries', n, 7)
+
+
+def run_reregistration(chk, F):
+    """E9-reregistration: with rows that are sets of entry copies keyed by column index, Column::reorder(map, k) erases
+    the copies of the column (under its current index) and inserts them under k. Base_swap::_orderRows does this one
+    column after the other: the keys handed out by one pass must be disjoint from the keys the columns still carry
+    (the keys of the previous pass, 0..n-1 at the start), otherwise an inserted copy collides with the stale copy of a
+    column not yet re-registered and is dropped. Decided on the arguments `i + c*n` of the passes, evaluated in the
+    configuration has_row_access && !has_intrusive_rows."""
+    fs = [f for f in F.functions if f.get('clsname') == 'Base_swap' and f['name'] == '_orderRows' and
+          f['inst'] in (0, 2) and f.get('body') is not None]
+    if len(fs) != 1:
+        raise AnalysisBroken('C09: Base_swap::_orderRows not found')
+    f = fs[0]
+    env = {}            # local -> (coefficient of n, constant) ; n = number of columns
+
+    def lin(e, loopvar):
+        """(coefficient of the loop variable, coefficient of n, constant) or None"""
+        e = ir.skipcasts(e)
+        if e is None:
+            return None
+        k = e.get('k')
+        if k == 'ParenExpr':
+            return lin(e['c'][0], loopvar)
+        if k == 'IntegerLiteral':
+            return (0, 0, int(e.get('v', e.get('value', 0))))
+        if k == 'DeclRefExpr':
+            if e.get('n') == loopvar:
+                return (1, 0, 0)
+            if e.get('n') in env:
+                return (0,) + env[e['n']]
+            return None
+        if ir.is_call(e) and ir.call_name(e) == 'get_number_of_columns':
+            return (0, 1, 0)
+        if k == 'BinaryOperator' and e.get('op') in ('+', '-'):
+            a, b = lin(e['c'][0], loopvar), lin(e['c'][1], loopvar)
+            if a is None or b is None:
+                return None
+            sg = 1 if e['op'] == '+' else -1
+            return tuple(x + sg * y for x, y in zip(a, b))
+        return None
+
+    def set_rows_arm(cond):
+        t = ir.show(cond).replace(' ', '').replace('Master_matrix::Option_list::', '')
+        return 'has_row_access' in t and '!has_intrusive_rows' in t and '||' not in t
+
+    passes = []
+
+    def walk(st, active):
+        if st is None:
+            return
+        k = st.get('k')
+        if k == 'CompoundStmt':
+            for c in st.get('c') or []:
+                walk(c, active)
+            return
+        if k == 'IfStmt':
+            if set_rows_arm(st.get('cond')):
+                walk(st.get('then'), active)          # the configuration under study takes this arm
+            elif 'has_intrusive_rows' in ir.show(st.get('cond')):
+                raise AnalysisBroken('C09: unrecognised row-kind test in _orderRows: %s' % ir.show(st.get('cond')))
+            else:
+                walk(st.get('then'), active)
+                walk(st.get('else'), active)
+            return
+        if k == 'DeclStmt':
+            for d in st.get('decls', []):
+                if isinstance(d, dict) and d.get('k') == 'VarDecl' and d.get('init') is not None:
+                    v = lin(d['init'], None)
+                    if v is not None and v[0] == 0:
+                        env[d['n']] = (v[1], v[2])
+            return
+        if k == 'BinaryOperator' and st.get('op') == '=':
+            l = ir.skipcasts(st['c'][0])
+            if l is not None and l.get('k') == 'DeclRefExpr' and l.get('n') in env:
+                v = lin(st['c'][1], None)
+                if v is None or v[0] != 0:
+                    env.pop(l['n'])
+                else:
+                    env[l['n']] = (v[1], v[2])
+            return
+        if k == 'ForStmt':
+            var = None
+            init = st.get('init')
+            if init is not None and init.get('k') == 'DeclStmt' and init.get('decls'):
+                var = init['decls'][0].get('n')
+            for x in ir.walk(st.get('body')):
+                if ir.is_call(x) and ir.call_name(x) == 'reorder' and len(ir.call_args(x)) == 2:
+                    passes.append((x, lin(ir.call_args(x)[1], var), ir.show(st.get('cond'))))
+            return
+        for x in ir.walk(st):
+            if ir.is_call(x) and ir.call_name(x) == 'reorder':
+                raise AnalysisBroken('C09: reorder called outside a counting loop in _orderRows')
+    walk(f['body'], True)
+    if not passes:
+        raise AnalysisBroken('C09: no reorder pass found in Base_swap::_orderRows')
+    carried = (0, 0)          # the columns carry the keys  c*n + d + [0, n)
+    bad = None
+    for call, v, cond in passes:
+        if v is None or v[0] != 1:
+            bad = 'line %s: the index handed to reorder (%s) is not of the form i + c*n' % (
+                call.get('l'), ir.show(ir.call_args(call)[1]))
+            break
+        new = (v[1], v[2])
+        if new[1] != 0 or carried[1] != 0:
+            bad = 'line %s: pass with a constant shift, ranges not comparable' % call.get('l')
+            break
+        if new[0] == carried[0]:
+            bad = 'line %s: the pass hands out the keys %s*n + [0, n) while the columns not yet re-registered ' \
+                  'still carry keys of the same range: in a row that two swapped columns share, the copy ' \
+                  'inserted for the first collides with the stale copy of the second and is dropped' % (
+                      call.get('l'), new[0])
+            break
+        carried = new
+    if bad is None and carried != (0, 0):
+        bad = 'the last pass leaves the columns under the keys %d*n + [0, n), not under their slot indices' % carried[0]
+    chk.ob('E9-reregistration', 'Base_swap::_orderRows re-registers the columns in set rows in passes whose keys never '
+           'meet the keys still carried (%d passes)' % len(passes), '%s:%d' % (rel(f['file']), f['line']), bad is None,
+           bad or '', key='E9|Base_swap::_orderRows|reregistration')
+
+
+def run_unknown_rows(chk, F):
+    """E12f-unknown-row: zero_entry / is_zero_entry / erase_empty_row take any row index, also of a row no column has
+    an entry in ("zeroing of entries already zero"): every lookup of a function parameter in the dictionaries of the
+    lazy row swaps is guarded on the path by a test on that key (find() compared with end(), or a comparison with
+    size()), or the function grows the dictionary up to the key first."""
+    D = ('indexToRow_', 'rowToIndex_')
+    files = ('Base_matrix.h', 'Boundary_matrix.h', 'base_swap.h')
+    n = 0
+    for f in F.functions:
+        if f.get('inst') not in (0, 2) or f.get('body') is None or f['file'].split('/')[-1] not in files:
+            continue
+        pnames = {p['n'] for p in f.get('params', [])}
+        if not pnames:
+            continue
+        sites = []
+        for x in ir.walk(f['body']):
+            base = key = None
+            if x.get('k') == 'ArraySubscriptExpr':
+                base, key = x['c'][0], x['c'][1]
+            elif x.get('k') == 'CXXOperatorCallExpr' and x.get('op') == '[]' and len(ir.call_args(x)) == 2:
+                base, key = ir.call_args(x)
+            elif ir.is_call(x) and ir.call_name(x) == 'at' and ir.call_args(x):
+                base, key = ir.call_receiver(x), ir.call_args(x)[0]
+            if base is None:
+                continue
+            b = ir.skipcasts(base)
+            kk = ir.skipcasts(key)
+            if b is None or b.get('n') not in D or kk is None or kk.get('k') != 'DeclRefExpr' or \
+                    kk.get('n') not in pnames:
+                continue
+            sites.append((x, b['n'], kk['n']))
+        if not sites:
+            continue
+
+        def cl(x, sites=sites):
+            for s in sites:
+                if x is s[0]:
+                    return ['AT']
+            return []
+        ps = paths.enumerate_paths(f, cl, loop_mode='01', keep_conds=True, cap=20000)
+        grows = {}
+        for x in ir.walk(f['body']):
+            if x.get('k') == 'ForStmt' and x.get('cond') is not None:
+                ct = ir.show(x['cond'])
+                for y in ir.walk(x.get('body')):
+                    if ir.is_call(y) and ir.call_name(y) == 'push_back':
+                        r = ir.skipcasts(ir.call_receiver(y))
+                        if r is not None and r.get('n') in D:
+                            grows.setdefault(r['n'], []).append(ct)
+        owner = f.get('clsname') or '-'
+        for node, d, key in sites:
+            n += 1
+            bad = None
+            for p in ps:
+                guarded = False
+                for ev in p.events:
+                    if ev[0] == '?' and not isinstance(ev[1][0], tuple):
+                        t = ir.show(ev[1][0])
+                        if re.search(r'\b%s\b' % re.escape(key), t) and ('indexToRow_' in t or 'rowToIndex_' in t or
+                                                                          '.end()' in t):
+                            guarded = True
+                    if ev[0] == 'AT' and ev[1] is node and not guarded:
+                        bad = p
+                        break
+                if bad is not None:
+                    break
+            if bad is not None and any(re.search(r'\b%s\b' % re.escape(key), c) for c in grows.get(d, [])):
+                bad = None           # the function first extends the dictionary up to the key
+            chk.ob('E12f-unknown-row', '%s::%s looks the parameter `%s` up in %s only after a test on that key' % (
+                owner, f['name'], key, d), '%s:%s' % (rel(f['file']), node.get('l')), bad is None,
+                '' if bad is None else '`%s` is read on a path with no test that the key is registered: for a row no '
+                'column has an entry in, this reads past the vector / throws out of the map' % ir.show(node)[:60],
+                key='E12f|%s::%s|%s[%s]' % (owner, f['name'], d, key))
+    chk.expect_count('E12f-unknown-row', 'dictionary lookups keyed by a parameter', n, 4)
+
+
+INPLACE_FIRST = ('multiply_inplace', 'add_inplace', 'subtract_inplace_front', 'multiply_and_add_inplace_front',
+                 'add_and_multiply_inplace_front')
+INPLACE_LAST = ('multiply_and_add_inplace_back', 'add_and_multiply_inplace_back', 'subtract_inplace_back')
+
+
+def _entry_of_element(e):
+    """text of E when e is `E->get_element()` / `E.get_element()` (an lvalue on the stored coefficient), else None"""
+    e = ir.skipcasts(e)
+    if e is not None and ir.is_call(e) and ir.call_name(e) == 'get_element' and not ir.call_args(e):
+        r = ir.call_receiver(e)
+        if r is not None:
+            return _norm_entry(ir.show(r))
+    return None
+
+
+def _norm_entry(t):
+    t = t.replace(' ', '')
+    while t.startswith('(') and t.endswith(')'):
+        t = t[1:-1]
+    return t
+
+
+def run_row_copy_sync(chk, F):
+    """E2-row-copy: with non intrusive rows a row holds *copies* of the entries, so "each row lists exactly the non-zero
+    entries" needs every change of a stored coefficient to be pushed with update_entry. On every path compiled with row
+    access of the column classes and of the shared merge helpers, a coefficient changed in place (operators_->*_inplace
+    on E->get_element(), E->set_element on an entry already linked) is followed by update_entry(*E), or the entry is
+    deleted, before the path ends. A lambda that changes the coefficient of an entry it received as a parameter and
+    does not push it leaves the obligation to the function it is handed to: there, the call of the functor parameter
+    counts as a change of the entry passed (summaries per callee and parameter position, union over all bindings)."""
+    fns = [f for f in F.functions if f['inst'] in (0, 2) and f.get('body') is not None and '/columns/' in f['file']
+           and f.get('clsname') != 'Heap_column' and not f['file'].endswith('heap_column.h')]
+
+    def events(x, lparams, summaries, fparams):
+        ev = []
+        if x.get('k') == 'VarDecl' and x.get('init') is not None:
+            i = ir.skipcasts(x['init'])
+            if ir.is_call(i) and ir.call_name(i) == 'construct':
+                ev.append('NEW:' + x['n'])
+            if ir.is_call(i) and ir.call_name(i) == '_insert_entry':
+                ev.append('LINKED:' + x['n'])
+        if x.get('k') == 'BinaryOperator' and x.get('op') == '=' and len(x.get('c') or []) == 2:
+            l, r = ir.skipcasts(x['c'][0]), ir.skipcasts(x['c'][1])
+            if l is not None and l.get('k') == 'DeclRefExpr' and ir.is_call(r) and ir.call_name(r) == 'construct':
+                ev.append('NEW:' + l['n'])
+        if ir.is_call(x):
+            nm = ir.call_name(x)
+            args = ir.call_args(x)
+            rcv = ir.show(ir.call_receiver(x)) if ir.call_receiver(x) is not None else ''
+            if 'operators_' in rcv and args:
+                tgt = args[0] if nm in INPLACE_FIRST else args[-1] if nm in INPLACE_LAST else None
+                if tgt is not None:
+                    e = _entry_of_element(tgt)
+                    t0 = ir.skipcasts(tgt)
+                    if e:
+                        ev.append('MUT:' + e)
+                    elif t0 is not None and t0.get('k') == 'DeclRefExpr' and t0.get('n') in lparams:
+                        ev.append('MUT:' + t0['n'])         # a coefficient received by reference
+            ce = ir.callee_expr(x)
+            if ce is not None and ce.get('k') == 'DeclRefExpr' and ce.get('n') in fparams:
+                for i in summaries.get(ce['n'], ()):
+                    if i < len(args):
+                        e = _entry_of_element(args[i])
+                        ev.append('MUT:' + (e or _norm_entry(ir.show(args[i]))))
+            if nm == 'set_element' and ir.call_receiver(x) is not None:
+                ev.append('SET:' + _norm_entry(ir.show(ir.call_receiver(x))))
+            if nm == 'update_entry' and args:
+                t = _norm_entry(ir.show(args[0]))
+                ev.append('UPD:' + (t[1:] if t.startswith('*') else t))
+                ev.append('UPD:' + t)
+            if nm == 'insert_entry' and len(args) == 2:
+                t = _norm_entry(ir.show(args[1]))
+                ev.append('INS:' + (t[1:] if t.startswith('&') else t))
+            if nm in ('_delete_entry', 'destroy'):
+                ev.append('DEL')
+        return ev
+
+    def pending_of(fn_like, lparams, summaries, fparams, own_lambda_params=()):
+        """[(entry text, node)] left pending on some path compiled with row access; also the number of changes seen"""
+        skip = set(own_lambda_params)
+
+        def cl(x):
+            out = []
+            for t in events(x, lparams, summaries, fparams):
+                kind, _, e = t.partition(':')
+                if kind in ('MUT', 'SET') and e in skip:
+                    continue
+                out.append(t)
+            return out
+        if not ir.contains(fn_like['body'], lambda y: any(t.startswith(('MUT:', 'SET:')) for t in cl(y))):
+            return [], 0
+        try:
+            ps = paths.enumerate_paths(fn_like, cl, loop_mode='01', keep_conds=True, cap=60000)
+        except paths.TooManyPaths:
+            raise AnalysisBroken('C09: too many paths in %s' % fn_like.get('qual', 'a lambda'))
+        left, seen = {}, 0
+        for p in ps:
+            if p.end == 'throw':
+                continue
+            ra_false = any(cx and ((not pol and _is_ra(c)) or (pol and _is_not_ra(c)))
+                           for c, pol, cx in p.conds if not isinstance(c, tuple))
+            if ra_false:
+                continue
+            fresh, pending = set(), {}
+            for tag, node in p.events:
+                if tag == '?':
+                    continue
+                kind, _, e = tag.partition(':')
+                if kind == 'NEW':
+                    fresh.add(e)
+                elif kind == 'LINKED':
+                    fresh.discard(e)
+                elif kind == 'INS':
+                    fresh.discard(e)
+                    pending.pop(e, None)            # the copy is taken now, with the current value
+                elif kind in ('MUT', 'SET'):
+                    seen += 1
+                    if e not in fresh:
+                        pending[e] = node
+                elif kind == 'UPD':
+                    pending.pop(e, None)
+                elif kind == 'DEL':
+                    pending.clear()
+            for e, nd in pending.items():
+                left.setdefault(e, nd)
+        return list(left.items()), seen
+
+    # 1. summaries: lambdas handed to a function of the family -> parameters whose coefficient they leave changed
+    by_name = {}
+    for f in fns:
+        by_name.setdefault(f['name'], []).append(f)
+    summ = {}           # (class, callee name, parameter name) -> set of lambda parameter positions left pending
+    prov = {}           # same key -> where the lambdas leaving something pending are written
+    lam_params_in = {}  # id(function) -> names of the parameters of the lambdas it passes on
+    for f in fns:
+        for x in ir.walk(f['body']):
+            if not ir.is_call(x):
+                continue
+            callee = ir.call_name(x)
+            if callee not in by_name:
+                continue
+            for pos, a in enumerate(ir.call_args(x)):
+                la = ir.skipcasts(a)
+                if la is None or la.get('k') != 'LambdaExpr':
+                    continue
+                names = [p.get('n') for p in la.get('params', [])]
+                lam_params_in.setdefault(id(f), set()).update(n for n in names if n)
+                left, _ = pending_of({'body': la.get('body'), 'inits': []}, set(names), {}, set())
+                idxs = {names.index(e) for e, _ in left if e in names}
+                for g in by_name[callee]:
+                    if g.get('clsname') and g.get('clsname') != f.get('clsname'):
+                        continue                     # a member of another column class
+                    gp = g.get('params', [])
+                    if pos < len(gp):
+                        summ.setdefault((g.get('clsname'), callee, gp[pos]['n']), set()).update(idxs)
+                        if idxs:
+                            prov.setdefault((g.get('clsname'), callee, gp[pos]['n']), set()).add(
+                                '%s::%s line %s' % (f.get('clsname') or '-', f['name'], la.get('l')))
+    # functor parameters handed on to another function of the family carry their summary with them
+    changed = True
+    rounds = 0
+    while changed and rounds < 10:
+        changed = False
+        rounds += 1
+        for f in fns:
+            fpar = [p['n'] for p in f.get('params', [])]
+            for x in ir.walk(f['body']):
+                if not ir.is_call(x) or ir.call_name(x) not in by_name:
+                    continue
+                callee = ir.call_name(x)
+                for pos, a in enumerate(ir.call_args(x)):
+                    a0 = ir.skipcasts(a)
+                    if a0 is None or a0.get('k') != 'DeclRefExpr' or a0.get('n') not in fpar:
+                        continue
+                    mine = summ.get((f.get('clsname'), f['name'], a0['n']), set())
+                    if not mine:
+                        continue
+                    for g in by_name[callee]:
+                        if g.get('clsname') and g.get('clsname') != f.get('clsname'):
+                            continue
+                        gp = g.get('params', [])
+                        if pos < len(gp):
+                            tgt = summ.setdefault((g.get('clsname'), callee, gp[pos]['n']), set())
+                            if not mine <= tgt:
+                                tgt |= mine
+                                changed = True
+                            prov.setdefault((g.get('clsname'), callee, gp[pos]['n']), set()).update(
+                                prov.get((f.get('clsname'), f['name'], a0['n']), set()))
+    chk.count('lambda bindings summarised', sum(1 for _ in summ))
+
+    # 2. the functions themselves
+    n = 0
+    for f in fns:
+        fparams = {p['n'] for p in f.get('params', [])}
+        summaries = {pn: idx for (cl_, cn, pn), idx in summ.items()
+                     if cn == f['name'] and cl_ == f.get('clsname') and idx}
+        left, seen = pending_of(f, set(), summaries, fparams, lam_params_in.get(id(f), ()))
+        if seen == 0:
+            continue
+        n += 1
+        owner = f.get('clsname') or '-'
+        bad = left[0] if left else None
+        chk.ob('E2-row-copy', '%s::%s pushes every coefficient it changes in place to the copy kept by the row' % (
+            owner, f['name']), '%s:%d' % (rel(f['file']), f['line']), bad is None,
+            '' if bad is None else 'line %s: the coefficient of `%s` is changed in place (%s) and a path ends without '
+            'update_entry on it: with has_intrusive_rows = false the row keeps listing the old value%s' % (
+                bad[1].get('l'), bad[0], ir.show(bad[1])[:70], _prov_text(prov, f, bad[1])),
+            key='E2|%s::%s|row-copy' % (owner, f['name']))
+    chk.expect_count('E2-row-copy', 'functions changing stored coefficients in place', n, 10)
+
+
+def run_targeted_clear(chk, F):
+    """E8-targeted-clear: zero_entry(c, r) removes the entry of row r and nothing else, also when that entry is already
+    zero. In clear(rowIndex) of every column class, each deletion (_delete_entry / destroy / erase of a stored entry, a
+    row marked erased) happens where the guards in force - conditions of the enclosing ifs and loops, the negated
+    condition of a preceding search loop, a find() by the key - establish that the entry exists and that its row equals
+    the parameter. Decided by enumerating the abstract states (iterator at end or not) x (row <, ==, > parameter)."""
+    n = 0
+    for f in F.functions:
+        if f.get('clsname') not in COLUMNS or f['name'] != 'clear' or f['inst'] not in (0, 2) or \
+                f.get('body') is None or len(f.get('params', [])) != 1:
+            continue
+        par = f['params'][0]['n']
+        par_map = ir.parents(f['body'])
+        keyvars = set()        # locals built from the parameter and used as search keys
+        finds = {}             # iterator -> True when initialised by find(<key from the parameter>)
+        for x in ir.walk(f['body']):
+            if x.get('k') == 'VarDecl' and x.get('init') is not None:
+                i = ir.skipcasts(x['init'])
+                if ir.is_call(i) and ir.call_name(i) == 'construct' and mentions(i, par):
+                    keyvars.add(x['n'])
+                if ir.is_call(i) and ir.call_name(i) == 'find' and ir.call_args(i) and (
+                        mentions(ir.call_args(i)[0], par) or any(mentions(ir.call_args(i)[0], kv) for kv in keyvars)):
+                    finds[x['n']] = True
+
+        def var_of(e):
+            t = _norm_entry(ir.show(e))
+            while t.startswith('*') or t.startswith('&'):
+                t = _norm_entry(t[1:])
+            return t if re.fullmatch(r'\w+', t) else None
+
+        def atom(c, v):
+            """('end', bool) / ('rel', set of allowed relations) / None (does not concern v or the parameter)"""
+            c = ir.skipcasts(c)
+            if c is None:
+                return None
+            if c.get('k') == 'ParenExpr':
+                return atom(c['c'][0], v)
+            if c.get('k') in ('BinaryOperator', 'CXXOperatorCallExpr') and c.get('op') in ('==', '!=', '<', '>', '<=', '>='):
+                ab = c['c'] if c['k'] == 'BinaryOperator' else ir.call_args(c)
+                if len(ab) != 2:
+                    return None
+                ta, tb = _norm_entry(ir.show(ab[0])), _norm_entry(ir.show(ab[1]))
+                op = c['op']
+                for x, y, o in ((ta, tb, op), (tb, ta, {'<': '>', '>': '<', '<=': '>=', '>=': '<='}.get(op, op))):
+                    if x == v and (re.search(r'(\.|->)c?r?end\(\)$', y) or y == 'nullptr') and o in ('==', '!='):
+                        return ('end', o == '==')
+                    if re.sub(r'[()*]', '', x) in (v + '->get_row_index', v + '.get_row_index') and y == par:
+                        return ('rel', {'==': {'EQ'}, '!=': {'LT', 'GT'}, '<': {'LT'}, '>': {'GT'}, '<=': {'LT', 'EQ'},
+                                        '>=': {'GT', 'EQ'}}[o])
+                if v in re.findall(r'\w+', ta + ' ' + tb) or par in re.findall(r'\w+', ta + ' ' + tb):
+                    raise AnalysisBroken('C09: %s::clear: unrecognised test on the searched entry: %s' % (
+                        f['clsname'], ir.show(c)))
+            return None
+
+        def holds(c, v, end, rel):
+            """three-valued: True / False / None (unknown, free)"""
+            c0 = ir.skipcasts(c)
+            if c0 is None:
+                return None
+            k = c0.get('k')
+            if k == 'ParenExpr':
+                return holds(c0['c'][0], v, end, rel)
+            if k == 'UnaryOperator' and c0.get('op') == '!':
+                r = holds(c0['c'][0], v, end, rel)
+                return None if r is None else not r
+            if k == 'BinaryOperator' and c0.get('op') in ('&&', '||'):
+                a, b = holds(c0['c'][0], v, end, rel), holds(c0['c'][1], v, end, rel)
+                if c0['op'] == '&&':
+                    if a is False or b is False:
+                        return False
+                    return True if (a is True and b is True) else None
+                if a is True or b is True:
+                    return True
+                return False if (a is False and b is False) else None
+            at = atom(c0, v)
+            if at is None:
+                return None
+            if at[0] == 'end':
+                return end == at[1]
+            if end:
+                return None          # the row of end() is not defined: the test is not evaluated in a correct program
+            return rel in at[1]
+        for x in ir.walk(f['body']):
+            v = None
+            what = None
+            if ir.is_call(x) and ir.call_name(x) in ('_delete_entry', 'destroy', 'erase') and ir.call_args(x):
+                v = var_of(ir.call_args(x)[0])
+                what = ir.show(x)[:50]
+                if v in keyvars or v is None:
+                    continue
+            elif ir.is_call(x) and ir.call_name(x) == 'insert' and ir.call_receiver(x) is not None and \
+                    ir.show(ir.call_receiver(x)) == 'erasedValues_':
+                what = ir.show(x)[:50]
+            else:
+                continue
+            # guards in force
+            guards = []          # (cond, polarity)
+            node, loopvars = x, []
+            while id(node) in par_map:
+                pnode = par_map[id(node)]
+                k = pnode.get('k')
+                if k == 'IfStmt':
+                    if node is pnode.get('then'):
+                        guards.append((pnode.get('cond'), True))
+                    elif node is pnode.get('else'):
+                        guards.append((pnode.get('cond'), False))
+                elif k in ('WhileStmt', 'ForStmt') and node is pnode.get('body'):
+                    guards.append((pnode.get('cond'), True))
+                elif k == 'CXXForRangeStmt' and node is pnode.get('body'):
+                    loopvars.append((pnode.get('var') or {}).get('n'))
+                elif k == 'CompoundStmt':
+                    for sib in pnode.get('c') or []:
+                        if sib is node:
+                            break
+                        if sib.get('k') == 'WhileStmt' and not ir.contains(
+                                sib.get('body'), lambda y: y.get('k') in ('BreakStmt', 'ReturnStmt')):
+                            guards.append((sib.get('cond'), False))
+                node = pnode
+            if v is None:
+                # a row marked erased: the entry concerned is the one the enclosing tests talk about
+                gt = re.sub(r'[()*]', '', ' '.join(ir.show(c) for c, _ in guards))
+                cands = [w for w in loopvars if w] + re.findall(r'(\w+)(?:->|\.)get_row_index', gt)
+                v = cands[0] if cands else None
+                if v is None:
+                    raise AnalysisBroken('C09: %s::clear: no entry identified for %s' % (f['clsname'], what))
+            n += 1
+            bad = None
+            in_range_loop = v in loopvars
+            for end in ((False,) if in_range_loop else (False, True)):
+                for rel in ('LT', 'EQ', 'GT'):
+                    if end and rel != 'EQ':
+                        continue                          # one state is enough for "at end"
+                    if finds.get(v) and not end and rel != 'EQ':
+                        continue                          # find() by the key: found means equal
+                    ok = True
+                    for c, pol in guards:
+                        r = holds(c, v, end, rel)
+                        if r is not None and r != pol:
+                            ok = False
+                            break
+                    if ok and (end or rel != 'EQ') and bad is None:
+                        bad = 'the deletion is reached with %s' % (
+                            'the iterator at end()' if end else 'an entry whose row is %s the parameter' % (
+                                'smaller than' if rel == 'LT' else 'greater than'))
+            chk.ob('E8-targeted-clear', '%s::clear(%s): `%s` only for the stored entry of that row' % (
+                f['clsname'], par, what), '%s:%s' % (rel_(f), x.get('l')), bad is None,
+                '' if bad is None else '%s: zeroing an entry that is already zero removes another entry' % bad,
+                key='E8|%s::clear|targeted|%s' % (f['clsname'], ir.call_name(x)))
+    chk.expect_count('E8-targeted-clear', 'deletions in clear(row)', n, 8)
+
+
+def _prov_text(prov, f, node):
+    ce = ir.callee_expr(node) if ir.is_call(node) else None
+    if ce is not None and ce.get('k') == 'DeclRefExpr':
+        o = prov.get((f.get('clsname'), f['name'], ce.get('n')))
+        if o:
+            return ' [the functor `%s` leaves it changed when bound to the lambda of %s]' % (
+                ce['n'], ', '.join(sorted(o)[:3]))
+    return ''
+
+
+def rel_(f):
+    return rel(f['file'])
+
+
 def run(tier, replay=None):
     chk = Check('C09', tier,
                 'Static decision of structural clauses of the column classes behind "a general matrix behaves as a '
@@ -480,6 +1127,14 @@ def run(tier, replay=None):
     run_entry_order(chk, F)
     run_assert_purity(chk, F)
     run_swap_dictionaries(chk, F)
+    run_row_exact(chk, F)
+    run_row_copy_sync(chk, F)
+    run_targeted_clear(chk, F)
+    run_reorder_index(chk, F)
+    run_reregistration(chk, F)
+    run_unknown_rows(chk, F)
+    findrule.run(chk, F, ('Base_matrix.h', 'base_swap.h', 'matrix_row_access.h',
+                          'Base_matrix_with_column_compression.h'), TABLE.get('find_invariants', {}), 'C09', 3)
     c05.run_row_kinds(chk, F, only=('base_swap.h',), floor=8)
     chk.assumptions += ['clang 14 parser; template patterns', 'tables/c09.json', 'tables/c05.json']
     return chk
@@ -597,6 +1252,79 @@ def run_lazy_discipline(chk, F):
                    'with clear(row) are treated as present', key='E2g|Vector_column::%s|lazy-loop|%d' % (
                        f['name'], sum(1 for l2, _ in loops[:loops.index((lp, guarded))] if True)))
     chk.expect_count('E2g-lazy-discipline', 'loops over column_ in Vector_column', n, 8)
+
+    # the source of an addition can itself be a Vector_column with lazily erased entries (its iterators visit them,
+    # its size() does not count them): every loop over a source range of generic type consults the erased rows of
+    # the source, directly or through a local helper
+    m = 0
+    for f in fns:
+        src = [p for p in f.get('params', []) if 'Entry_range' in (p.get('t') or '')]
+        if not src or f.get('body') is None:
+            continue
+        sname = src[0]['n']
+        key = sname + '.erasedValues_'
+        helpers = set()
+        for x in ir.walk(f.get('body')):
+            if x.get('k') == 'VarDecl' and x.get('init') is not None:
+                i = ir.skipcasts(x['init'])
+                if i is not None and i.get('k') == 'LambdaExpr' and key in _all_text(i):
+                    helpers.add(x['n'])
+
+        def consults_src(node):
+            if node is None:
+                return False
+            t = _all_text(node)
+            return key in t or any((h + '(') in t for h in helpers)
+        li = 0
+        for lp in ir.walk(f['body']):
+            if lp.get('k') not in ('ForStmt', 'WhileStmt', 'CXXForRangeStmt', 'DoStmt'):
+                continue
+            head = ir.show(lp.get('range')) if lp.get('k') == 'CXXForRangeStmt' else ir.show(lp.get('cond'))
+            if not ((lp.get('k') == 'CXXForRangeStmt' and head == sname) or (sname + '.end()') in head):
+                continue
+            m += 1
+            ok = consults_src(lp.get('body')) or consults_src(lp.get('cond'))
+            chk.ob('E2g-lazy-discipline', 'Vector_column::%s: loop over the source range at line %s skips the rows the '
+                   'source erased lazily' % (f['name'], lp.get('l')), '%s:%s' % (rel(f['file']), lp.get('l')), ok,
+                   '' if ok else 'the loop visits every stored entry of `%s`; when the source is a Vector_column its '
+                   'iterators also visit the entries zeroed with clear(row), which size() does not count: erased '
+                   'entries are copied (and written past a container sized with size())' % sname,
+                   key='E2g|Vector_column::%s|lazy-source-loop|%d' % (f['name'], li))
+            li += 1
+    chk.expect_count('E2g-lazy-discipline', 'loops over a generic source range in Vector_column', m, 3)
+
+    # erasedValues_ taken over from another column goes with all the stored entries of that column: the same function
+    # copies the entries of that column without skipping the erased ones (or moves / swaps the container)
+    for f in fns:
+        for x in ir.walk(f.get('body')):
+            t = ir.write_target(x)
+            if t is None or x.get('op') != '=':
+                continue
+            tt = ir.skipcasts(t)
+            if tt is None or tt.get('n') != 'erasedValues_' or tt.get('k') not in ir.MEMBER_KINDS + ('DeclRefExpr',):
+                continue
+            rhs = ir.show(x['c'][1]) if len(x.get('c') or []) == 2 else ''
+            mm = re.match(r'(?:std::move\()?(\w+)\.erasedValues_', rhs)
+            if not mm:
+                continue
+            other = mm.group(1)
+            raw = False
+            for lp in ir.walk(f['body']):
+                if lp.get('k') == 'CXXForRangeStmt' and ir.show(lp.get('range')) in (other, other + '.column_'):
+                    bt = _all_text(lp.get('body'))
+                    hl = [y['n'] for y in ir.walk(f['body']) if y.get('k') == 'VarDecl' and y.get('init') is not None
+                          and (ir.skipcasts(y['init']) or {}).get('k') == 'LambdaExpr' and
+                          'erasedValues_' in _all_text(y['init'])]
+                    if 'erasedValues_' not in bt and not any((h + '(') in bt for h in hl):
+                        raw = True
+                if ir.is_call(lp) and ir.call_name(lp) in ('swap', 'move', 'exchange') and \
+                        (other + '.column_') in ir.show(lp):
+                    raw = True
+            chk.ob('E2g-lazy-state', 'Vector_column::%s takes over erasedValues_ of `%s` together with all its stored '
+                   'entries' % (f['name'], other), '%s:%s' % (rel(f['file']), x.get('l')), raw,
+                   '' if raw else 'erasedValues_ is overwritten with the set of `%s` while the entries of `%s` are not '
+                   'all copied: size() = column_.size() - erasedValues_.size() relies on the erased rows being stored'
+                   % (other, other), key='E2g|Vector_column::%s|erased-assigned' % f['name'])
 
 
 def _all_text(n):
